@@ -20,7 +20,7 @@ def reg(cls):
 
 
 SH_Q = [(), (1,), (3,), (2, 1), (1, 3), (2, 3)]
-SH_T = SH_Q + [(2,), (1, 1), (3, 1), (2, 1, 3), (1, 2, 1), (2, 2, 3), (1, 1, 1), (3, 2, 2)]
+SH_T = SH_Q + [(2,), (1, 1), (3, 1), (2, 1, 3), (1, 2, 1), (2, 2, 3), (1, 1, 1), (3, 2, 2), (2, 1, 1, 2), (1, 2, 1, 1, 2)]
 
 
 def shapes(tier):
@@ -429,7 +429,7 @@ def _reduce_ref(x, dims, keep, fn):
 
 
 RED_SH_Q = [(), (3,), (2, 3), (1, 2)]
-RED_SH_T = RED_SH_Q + [(2, 1, 3), (2, 2, 2)]
+RED_SH_T = RED_SH_Q + [(2, 1, 3), (2, 2, 2), (1, 2, 1, 2), (2, 1, 1, 1, 2)]
 
 
 class _Reduce(OpDef):
@@ -845,7 +845,7 @@ def _movedim_perm(r, src, dst):
 
 
 PERM_SH_Q = [(2, 3), (2, 3, 4)]
-PERM_SH_T = [(2, 3), (2, 3, 4), (1, 2, 3, 2), (3,)]
+PERM_SH_T = [(2, 3), (2, 3, 4), (1, 2, 3, 2), (3,), (2, 1, 2, 1, 2)]
 
 
 @reg
